@@ -276,7 +276,7 @@ ADDED = {
            "datasets, dataset ids left open at SDend, a reader open while the stream is swapped for a writable one); "
            "sticky faults start at reads as well as writes. Every closed session is a workload of its own: a fault after which every call up to that close reports success must leave the file the fault-free run leaves at that point, whatever a later session reports; fill-mode switches (which store the file's description in mid-session) are in the workload, one directed program is built on them.",
     "C17": "Also: the write that starts the flush must come from the descriptor sync (HTPsync), whatever caused it; the "
-           "workload uses the largest reference number and stores elements under references the library hands out. Directed sessions that add one dataset without data to an SD-only file; the write that starts the flush must be caused by Hsync/Hclose (HIsync or HTPend in its call chain), not by some call on the way.",
+           "workload uses the largest reference number and stores elements under references the library hands out. Directed sessions that add one dataset without data to an SD-only file; the write that starts the flush must be caused by Hsync/Hclose (HIsync or HTPend in its call chain), not by some call on the way. In 30 % of the plans an empty descriptor block of another size is linked to the end of the base file's chain before the session (a well-formed file other writers produce), so one flush dirties blocks of different sizes.",
     "C20": "Also in the search: a vgroup name/class that is refused leaves the old one; a field name in a list behaves as "
            "the same name alone; seeks and lengths around 2^31-1 inside one element; unlimited datasets with records of "
            "8..33 million values (starts of records written). A coordinate variable that would be 4 GiB (SDsetdimstrs on a dimension of 2^30 one-byte cells) is refused and leaves no dataset behind.",
